@@ -26,6 +26,11 @@ import (
 	"github.com/bluenviron/gomavlib/v3/pkg/dialect"
 )
 
+// id -> CRC_EXTRA derived from the struct declarations by checks/gen_msgs.py (independent implementation of the rules)
+var verifSpecCRC = map[uint32]byte{
+SPECCRC
+}
+
 var verifRW *dialect.ReadWriter
 var verifInitErr error
 
@@ -38,6 +43,9 @@ func verifSetupDialect() {
 // D1: for every 32-bit id, the lookup returns the codec of the message with that id, and nothing for ids the
 // dialect does not declare
 func verifHarness_C17_lookup() {
+	if verifRW == nil {
+		verifSetupDialect() // native replay: the executor runs this once before the paths
+	}
 	verifAssert(verifInitErr == nil, "C17/dialect-initializes")
 	id := verifNondetU32()
 	mp := verifRW.GetMessage(id)
@@ -48,6 +56,10 @@ func verifHarness_C17_lookup() {
 	verifAssert(verifIff(mp != nil, declared), "C17/lookup-finds-exactly-the-declared-ids")
 	if mp != nil {
 		verifAssert(mp.Message.GetID() == id, "C17/lookup-returns-the-message-with-that-id")
+		// CRC_EXTRA of the codec served for this id = the value the MAVLink rules derive from the definition
+		want, known := verifSpecCRC[id]
+		verifAssert(known, "C17/spec-table-knows-every-declared-id")
+		verifAssert(mp.CRCExtra() == want, "C17/crc-extra-is-spec-value")
 	}
 	verifReach("C17/D1")
 }
@@ -58,6 +70,41 @@ def dialect_dirs():
     return sorted(os.path.relpath(os.path.dirname(p), R.REPO) for p in glob.glob(os.path.join(R.REPO, 'pkg', 'dialects', '*', 'dialect.go')))
 
 
+def message_ids_and_aliases():
+    ids, aliases = {}, {}
+    for path in glob.glob(os.path.join(R.REPO, 'pkg', 'dialects', '*', 'message_*.go')):
+        src = open(path).read()
+        pk = os.path.basename(os.path.dirname(path))
+        m = re.search(r'func \(\*(Message\w+)\) GetID\(\) uint32 \{\s*return (\d+)', src)
+        if m:
+            ids[(pk, m.group(1))] = int(m.group(2))
+        m = re.search(r'^type (Message\w+) = (\w+)\.(Message\w+)$', src, re.M)
+        if m:
+            aliases[(pk, m.group(1))] = (m.group(2), m.group(3))
+    return ids, aliases
+
+
+def spec_crc_tables(work):
+    """per dialect: message id -> spec-derived CRC_EXTRA of the message listed under that id"""
+    msgs = gen_msgs.load_message_defs(work)
+    crc = {(os.path.basename(m.pkgdir), m.go): m.crc_extra for m in msgs}
+    ids, aliases = message_ids_and_aliases()
+    out = {}
+    for d in dialect_dirs():
+        b = os.path.basename(d)
+        src = open(os.path.join(R.REPO, d, 'dialect.go')).read()
+        t = out.setdefault(b, {})
+        for name in re.findall(r'&(Message\w+)\{\}', src):
+            pk, nm = b, name
+            n = 0
+            while (pk, nm) in aliases and n < 10:
+                pk, nm = aliases[(pk, nm)]
+                n += 1
+            if (pk, nm) in ids and (pk, nm) in crc:
+                t[ids[(pk, nm)]] = crc[(pk, nm)]
+    return out
+
+
 def prepare(tier, work):
     dirs = dialect_dirs()
     only = os.environ.get('VERIF_ONLY_PKGS')
@@ -66,9 +113,11 @@ def prepare(tier, work):
     _state['dirs'] = dirs
     extra = {}
     groups = [{'name': None, 'pkgs': ['pkg/dialect'], 'roots': [r'dialect\.verifHarness_C17']}]
+    table = spec_crc_tables(work)
     for d in dirs:
         b = os.path.basename(d)
-        extra[os.path.join(d, 'zz_verif_c17.go')] = HARNESS.replace('PKGNAME', b)
+        rows = '\n'.join('\t%d: %d,' % (i, c) for i, c in sorted(table.get(b, {}).items()))
+        extra[os.path.join(d, 'zz_verif_c17.go')] = HARNESS.replace('PKGNAME', b).replace('SPECCRC', rows)
         groups.append({'name': d, 'pkgs': [d], 'roots': [b + r'\.verifHarness_C17', b + r'\.verifSetupDialect']})
     return {'extra': extra, 'groups': groups}
 
@@ -79,7 +128,7 @@ def tasks(tier):
         b = os.path.basename(d)
         ts.append(Task('verifHarness_C17_lookup', [], {'setup_fn': MODPATH + '/' + d + '.verifSetupDialect'}, pkg=d, group=d))
     for k in (2, 3, 4):
-        for bad in (0, 1):
+        for bad in (0, 1, 2):
             ts.append(Task('verifHarness_C17_duplicates', [k, bad], pkg='pkg/dialect'))
     return ts
 
